@@ -1719,14 +1719,14 @@ pub fn run(ctx: &Ctx) -> Outcome {
     let m2 = ThreadModel::new(if quick { "threads-mid-q" } else { "threads-mid-t" }, quick, true);
     // quick: explicit, machine-independent depths (every step crosses to the second OS thread and back: ~1 ms each)
     let maxd = if quick { 3 } else { 9 };
-    let rep = search(ctx, &m, "C20", maxd, ctx.tier.budget_s() * 0.4, true);
-    let rep2 = search(ctx, &m2, "C20", if quick { 2 } else { maxd }, ctx.tier.budget_s() * 0.8, true);
+    let rep = search(ctx, &m, "C20", maxd, ctx.tier.budget_s() * 0.28, true);
+    let rep2 = search(ctx, &m2, "C20", if quick { 2 } else { maxd }, ctx.tier.budget_s() * 0.55, true);
     let m3 = IdleModel::new("threads-idle", false);
     let m4 = IdleModel::new("threads-idle-mid", true);
-    let rep3 = search(ctx, &m3, "C20", if quick { 7 } else { 12 }, ctx.tier.budget_s() * 1.05, true);
-    let rep4 = search(ctx, &m4, "C20", if quick { 6 } else { 12 }, ctx.tier.budget_s() * 1.2, true);
+    let rep3 = search(ctx, &m3, "C20", if quick { 7 } else { 12 }, ctx.tier.budget_s() * 0.7, true);
+    let rep4 = search(ctx, &m4, "C20", if quick { 6 } else { 12 }, ctx.tier.budget_s() * 0.8, true);
     let m5 = ServerThreadModel::new(if quick { "threads-server-q" } else { "threads-server-t" }, quick);
-    let rep5 = search(ctx, &m5, "C20", if quick { 6 } else { 10 }, ctx.tier.budget_s() * 1.4, true);
+    let rep5 = search(ctx, &m5, "C20", if quick { 6 } else { 10 }, ctx.tier.budget_s() * 0.95, true);
     fill_outcome(&mut out, &[(m.name, &rep), (m2.name, &rep2), (m3.name, &rep3), (m4.name, &rep4), (m5.name, &rep5)]);
     out.set("exhaustive", json!(false));
     out.set("alphabet", json!({"events": m.events.iter().map(|e| format!("{:?}", e)).collect::<Vec<_>>(), "operations_injected_inside_poll": m.inject_menu.iter().map(|e| format!("{:?}", e)).collect::<Vec<_>>()}));
